@@ -1,11 +1,16 @@
 #!/bin/bash
-# usage: try_mutant.sh <seeded-name> <check-id> [tier]   — applies /verif/seeded/<name>/patch.diff to /repo,
-# runs ./check <id> <tier>, and always reverts /repo afterwards.
+# usage: try_mutant.sh <seeded-name> <check-id> [tier]
+# Runs ./check <id> <tier> against a scratch worktree of /repo with /verif/seeded/<name>/patch.diff applied,
+# using a scratch copy of /verif (so /repo and /verif themselves are never modified). Everything is removed afterwards.
 name=$1; id=$2; tier=${3:-quick}
-cd /verif
-if [ -n "$(git -C /repo status --porcelain)" ]; then echo "/repo not clean"; exit 3; fi
-git -C /repo apply /verif/seeded/$name/patch.diff || { echo "patch failed"; exit 3; }
-VERIF_REPLAY_DIR=/tmp/try_replays VERIF_EVIDENCE_DIR=/tmp/try_evidence ./check $id $tier > /tmp/try_$name_$id.log 2>&1; rc=$?
-git -C /repo checkout -- . 
-echo "mutant=$name check=$id tier=$tier rc=$rc"; grep -E "^\[check\]|^VIOLATION|^INCONCLUSIVE" /tmp/try_$name_$id.log | cut -c1-400 | head -5
+S=/tmp/mh/$name-$id-$$
+mkdir -p /tmp/mh
+git -C /repo worktree add -q --detach $S.repo HEAD || exit 3
+if ! git -C $S.repo apply /verif/seeded/$name/patch.diff; then echo "patch failed"; git -C /repo worktree remove --force $S.repo; exit 3; fi
+mkdir -p $S.verif
+rsync -a --exclude .git --exclude 'harness/.run' --exclude evidence --exclude replays /verif/ $S.verif/
+cd $S.verif
+VERIF_REPO=$S.repo VERIF_REPLAY_DIR=$S.verif/replays VERIF_EVIDENCE_DIR=$S.verif/evidence ./check $id $tier > $S.log 2>&1; rc=$?
+echo "mutant=$name check=$id tier=$tier rc=$rc"; grep -E "^\[check\]|^VIOLATION|^INCONCLUSIVE|^BUILD" $S.log | cut -c1-400 | head -5
+cd /; rm -rf $S.verif $S.log; git -C /repo worktree remove --force $S.repo
 exit 0
